@@ -65,3 +65,22 @@ Print Assumptions C19_sanitised_name_chars.
 Theorem C19_sanitised_name_refuted :
   ensure_valid_identifier (s2l "-1x") = s2l "1x" /\ ensure_valid_identifier (s2l "cl-ass") = s2l "class".
 Proof. split; vm_compute; reflexivity. Qed.
+
+(* ---- which parser `--parse infer` picks (parser_utils.infer, the AST-node branches; Model/Infer.v, compared with the code on
+   generated nodes each run): a class is read as a SQLAlchemy model exactly when `Base` stands among its bases -- in ANY position --
+   and as a plain class otherwise; an assignment is judged by its value. *)
+From CDD Require Infer InferProofs.
+Theorem C19_infer_model_wherever_base_stands : forall pre post,
+  Infer.infer (Infer.IClass (pre ++ Some (s2l "Base") :: post)) = Infer.Parser (s2l "sqlalchemy").
+Proof. exact InferProofs.base_anywhere. Qed.
+Print Assumptions C19_infer_model_wherever_base_stands.
+Theorem C19_infer_plain_class : forall bases,
+  (forall b, In b bases -> b <> Some (s2l "Base")) -> Infer.infer (Infer.IClass bases) = Infer.Parser (s2l "class_").
+Proof. exact InferProofs.no_base_is_a_class. Qed.
+Example C19_infer_examples :
+  Infer.infer (Infer.IClass [Some (s2l "TimestampMixin"); Some (s2l "Base")]) = Infer.Parser (s2l "sqlalchemy")
+  /\ Infer.infer (Infer.IClass [None; Some (s2l "object")]) = Infer.Parser (s2l "class_")
+  /\ Infer.infer (Infer.IFunction [s2l "argument_parser"]) = Infer.Parser (s2l "argparse_ast")
+  /\ Infer.infer (Infer.IAssign (Infer.ICall 3 (Some (s2l "metadata")))) = Infer.Parser (s2l "sqlalchemy_table")
+  /\ Infer.infer (Infer.IAssign (Infer.ICall 0 None)) = Infer.NoAnswer.
+Proof. exact InferProofs.infer_examples. Qed.
